@@ -317,54 +317,72 @@ DTYPE_TABLE = {
 
 
 def dtypes(run, p):
-    from ..pyeval import Interp, Unsupported
-    run.rule('C07-DTYPES', 'no numeric, boolean or date column is left out of discovery as type "other": over the dtype names pandas '
-                           'and numpy use (signed, unsigned and nullable integers; floats; bool/boolean; datetime64 in every unit and '
-                           'with a time zone) the dtype-name tests of pandas_tdda_type, taken in order, give int / real / bool / date')
+    import datetime
+    from ..pyeval import Interp, Model, Unsupported
+    run.rule('C07-DTYPES', 'no numeric, boolean or date column is left out of discovery as type "other": for a stand-in column of each '
+                           'dtype name pandas and numpy use (signed, unsigned and nullable integers; floats; bool/boolean; datetime64 '
+                           'in every unit and with a time zone) pandas_tdda_type returns int / real / bool / date - decided by abstract '
+                           'execution of the classifier')
     f = p.fn('tdda.constraints.pd.constraints.pandas_tdda_type')
-    I = Interp(p)
-    # the name holding str(dtype).lower()
-    nm = None
-    for s in f.node.body:
-        if isinstance(s, ast.Assign) and isinstance(s.targets[0], ast.Name) and 'str(' in norm(s.value) and 'lower' in norm(s.value):
-            nm = s.targets[0].id
-            start = f.node.body.index(s)
-    if nm is None:
-        raise AnalysisError('pandas_tdda_type no longer derives a lower-cased dtype name')
-    arms = []
-    for s in f.node.body[start + 1:]:
-        if isinstance(s, ast.If) and len(s.body) == 1 and isinstance(s.body[0], ast.Return) and isinstance(s.body[0].value, ast.Constant):
-            arms.append((s.test, s.body[0].value.value, s))
-        elif isinstance(s, ast.Return):
-            arms.append((None, s.value.value if isinstance(s.value, ast.Constant) else None, s))
-            break
-    if len(arms) < 4:
-        raise AnalysisError('pandas_tdda_type: dtype-name decision chain not found (%d arms)' % len(arms))
 
-    def holds(t, name):
-        """Truth of a test for a *column* of that dtype: sub-tests about the dtype name are evaluated, the others
-        (type(x) == bool, isinstance(x, datetime) ...: scalars) are false for a column."""
-        if isinstance(t, ast.BoolOp):
-            vs = [holds(v, name) for v in t.values]
-            return all(vs) if isinstance(t.op, ast.And) else any(vs)
-        if isinstance(t, ast.UnaryOp) and isinstance(t.op, ast.Not):
-            return not holds(t.operand, name)
-        used = names_in(t)
-        if nm in used and all(u == nm or u == 're' or u.startswith('re.') for u in used):
-            try:
-                return bool(I.expr(t, {nm: name.lower()}, f.mod))
-            except Unsupported as e:
-                raise AnalysisError('dtype-name test not evaluable: %s (%s)' % (norm(t), e))
-        return False
+    class DType(Model):
+        def __init__(self, name):
+            self.name = name
+            self.kind = {'i': 'i', 'u': 'u', 'f': 'f', 'b': 'b', 'd': 'M'}.get(name[:1].lower(), 'O')
+
+        def __str__(self):
+            return self.name
+
+        def __eq__(self, other):
+            return isinstance(other, DType) and other.name == self.name
+
+        def __hash__(self):
+            return hash(self.name)
+
+    class Col(Model):
+        def __init__(self, name):
+            self.dtype = DType(name)
+            self.size = 3
+
+    class Series_(Model):
+        pass
+
+    class NP(Model):
+        bool_ = bool
+
+        @staticmethod
+        def dtype(x):
+            return DType({'O': 'object'}.get(x, x))
+
+    class PDCore(Model):
+        class series(Model):
+            Series = Col
+
+    class PD(Model):
+        core = PDCore
+        Timestamp = datetime.datetime
+
+        @staticmethod
+        def isnull(x):
+            return False
     n = 0
     for want, names in sorted(DTYPE_TABLE.items()):
         for name in names:
+            I = Interp(p, consts={'unicode_string': str, 'byte_string': bytes, 'long_type': int, 'pandas_Timestamp': datetime.datetime,
+                                  'DEBUG': False})
+            I.safe_modules = {'datetime'}
+            I.extra_names.update({'np': NP, 'pd': PD, 'datetime': datetime})
+
+            def hook(m, args, kwargs, selfobj):
+                if m.name in ('is_categorical_dtype', 'is_string_dtype', 'is_string_col'):
+                    return True, False
+                return False, None
+            I.on_call = hook
+            try:
+                got = I.call(f, [Col(name)])
+            except Unsupported as e:
+                raise AnalysisError('pandas_tdda_type is not evaluable: %s' % e)
             n += 1
-            got = None
-            for t, val, s in arms:
-                if t is None or holds(t, name):
-                    got = val
-                    break
             run.ob('C07-DTYPES', 'dtype=%s' % name, got == want,
                    'a column of dtype %s is classed %r%s' % (name, got, '' if got == want else ' (documented: %r)' % want), fn=f)
     run.floor('C07-DTYPES', n, 30)
